@@ -150,6 +150,22 @@ def corpus_problems():
     c2.add_increase_effect(n, w(v), forall=(v,))
     p.add_action(a); p.add_action(b); p.add_action(c2); p.add_goal(env.expression_manager.Equals(n, 3))
     out.append(HandProblem(p, "forall-conflict-after-expansion"))
+    # 6b. forall effects over TWO variables of the same type (the instances are the full product)
+    env, tm, T, p, o1, o2 = base("forall-two-variables-same-type")
+    r = Fluent("r", tm.BoolType(), x=T, y=T, environment=env)
+    cnt = Fluent("cnt", tm.IntType(0, 9), environment=env)
+    p.add_fluent(r, default_initial_value=False); p.add_fluent(cnt, default_initial_value=0)
+    em = env.expression_manager
+    v1, v2 = Variable("v1", T, env), Variable("v2", T, env)
+    a = InstantaneousAction("fill", _env=env)
+    a.add_effect(r(v1, v2), True, forall=(v1, v2))
+    b = InstantaneousAction("count", _env=env)
+    b.add_increase_effect(cnt, 1, em.Not(r(v1, v2)), forall=(v1, v2))
+    c3 = InstantaneousAction("diag", _env=env)
+    c3.add_effect(r(v1, v2), True, em.Equals(v1, v2), forall=(v1, v2))
+    p.add_action(a); p.add_action(b); p.add_action(c3)
+    p.add_goal(em.And(r(o1, o2), em.Equals(cnt, 4)))
+    out.append(HandProblem(p, "forall-two-variables-same-type"))
     # 7. a state invariant that reads a fluent through a nested fluent argument: safe(dock)
     env, tm, T, p, o1, o2 = base("invariant-through-nested-fluent")
     dock = Fluent("dock", T, environment=env)
